@@ -210,6 +210,32 @@ def wf_collect(w: int) -> type:
     ])
 
 
+def wf_collect_fail(w: int) -> type:
+    """collector (num_workers=w, retry policy) whose invocation for B2 raises AFTER calling collect_events on its
+    first attempt; 4 events so that one waits in the queue"""
+
+    async def start(self, ctx, ev, inv):  # noqa: ANN001
+        ctx.send_event(A(uid=1))
+        ctx.send_event(B(uid=2))
+        ctx.send_event(A(uid=3))
+        ctx.send_event(B(uid=4))
+        return None
+
+    async def coll(self, ctx, ev, inv):  # noqa: ANN001
+        await gate(f"c{ev.uid}.{inv.retry.retry_number}")
+        r = ctx.collect_events(ev, [A, B, A, B])
+        if ev.uid == 2 and inv.retry.retry_number == 0:
+            raise RuntimeError("fails after collect_events")
+        if r is None:
+            return None
+        return StopEvent(result=sorted(e.uid for e in r))
+
+    return make_workflow("CollFail", [
+        make_step("start", [StartEvent], [A, B, None], start),
+        make_step("coll", [A, B], [StopEvent, None], coll, num_workers=w, retry_policy=_policy("zero")),
+    ])
+
+
 def wf_wait(w: int, n: int = 3, timeout: float | None = None) -> type:
     async def start(self, ctx, ev, inv):  # noqa: ANN001
         for i in range(n):
@@ -308,6 +334,9 @@ def catalog(tier: str) -> list[Spec]:
     for w in (1, 2, 3):
         sp.append(Spec(f"collect(w={w})", {"w": w}, (lambda w=w: wf_collect(w)), min_concurrency=min(3, w),
                        tags=("collect",)))
+    for w in (2, 3):
+        sp.append(Spec(f"collect_fail(w={w})", {"w": w}, (lambda w=w: wf_collect_fail(w)), tags=("collect", "retry"),
+                       max_dev=(4 if q else 6)))
     for w in (1, 2):
         sp.append(Spec(f"wait(w={w})", {"w": w}, (lambda w=w: wf_wait(w)), scripts=resp_scripts(3),
                        max_dev=(3 if q else 5), tags=("wait",)))
